@@ -574,12 +574,20 @@ impl Run {
                 // the git wrapper script (gitwrap.sh) reads its instructions from $GITFAULT_CTL
                 if let Some(cmd) = s["cmd"].as_str() {
                     let ctl = std::env::var("GITFAULT_CTL").expect("GITFAULT_CTL");
-                    let _ = std::fs::remove_file(format!("{ctl}.count"));
-                    std::fs::write(
-                        &ctl,
-                        format!("{} {} {}\n", cmd, at, if after { "after" } else { "before" }),
-                    )
-                    .unwrap();
+                    let mut rules =
+                        format!("{} {} {}\n", cmd, at, if after { "after" } else { "before" });
+                    // further commands failing in the same call (e.g. the remote is unreachable)
+                    if let Some(more) = s["also"].as_array() {
+                        for m in more {
+                            rules.push_str(&format!(
+                                "{} {} {}\n",
+                                m["cmd"].as_str().unwrap(),
+                                m["at"].as_u64().unwrap_or(1),
+                                if m["after"].as_bool().unwrap_or(false) { "after" } else { "before" }
+                            ));
+                        }
+                    }
+                    std::fs::write(&ctl, rules).unwrap();
                 }
                 if let Some(p) = s["point"].as_str() {
                     taskchampion::server::verif::set_failpoint(
@@ -600,7 +608,15 @@ impl Run {
         }
         if let Ok(ctl) = std::env::var("GITFAULT_CTL") {
             let _ = std::fs::remove_file(&ctl);
-            let _ = std::fs::remove_file(format!("{ctl}.count"));
+            if let Some(dir) = std::path::Path::new(&ctl).parent() {
+                if let Ok(rd) = std::fs::read_dir(dir) {
+                    for e in rd.flatten() {
+                        if e.file_name().to_string_lossy().starts_with("gitfault.ctl.count") {
+                            let _ = std::fs::remove_file(e.path());
+                        }
+                    }
+                }
+            }
         }
         for p in ["local.add_version.between", "git.add_version.after_version_file",
                   "git.add_version.after_meta"] {
